@@ -17,7 +17,7 @@
         (re-run on every generated lexer), Scan on the tables returns, token for token, what the
         definitional tokenizer returns. *)
 From Coq Require Import List ZArith Lia Bool.
-From Gocc Require Import Base.Utf8 Lex.Scan Lex.ScanProofs Lex.Pattern Lex.Deriv Lex.GScanProofs
+From Gocc Require Import Lex.LexGen Lex.LexGenProofs Base.Utf8 Lex.Scan Lex.ScanProofs Lex.Pattern Lex.Deriv Lex.GScanProofs
   Lex.DerivProofs Lex.Bisim Lex.BisimProofs Lex.LexTop.
 Import ListNotations.
 Open Scope Z_scope.
@@ -152,3 +152,36 @@ Proof. vm_compute. reflexivity. Qed.
 Example ex_recursive :
   dinit {| regdefs := [ [[Ref 1]]; [[Chr 1; Ref 0]] ]; toks := [ (Tok 2 false, [[Ref 0]]) ] |} = None.
 Proof. vm_compute. reflexivity. Qed.
+
+(** * For EVERY lexical part: the model of gocc's lexer generator (Lex/LexGen.v: regular definitions inlined, items as
+    positions of the patterns, e-closure, symbol classes by the verified AddRange, state numbering of ItemSets.Closure,
+    ItemSet.Action) — compared on every run with the DFA gocc builds AND with the emitted tables, by structural
+    equality (numbering, class order, targets, accept codes). *)
+
+(** whatever DFA the model generator outputs tokenizes every input exactly as the lexical rules define
+    (derivative semantics: macros, contextual '.', longest match, priorities), dots included *)
+Theorem C01_every_grammar_generated_dfa_correct : forall g fuel rows acts,
+  lexgen g fuel = Some (rows, acts) ->
+  forall k l, Forall byte (rest l) -> scan_n decode_rune (table_dfa rows acts) k l = dscan_n g k l.
+Proof. exact lexgen_correct. Qed.
+Print Assumptions C01_every_grammar_generated_dfa_correct.
+
+(** the generator is total on well-formed lexical parts (fuel bound: one more than 2 ^ #positions) ... *)
+Theorem C01_every_grammar_generator_total : forall g fuel, lex_wf g = true -> (lex_fuel g <= fuel)%nat ->
+  exists rows acts, lexgen g fuel = Some (rows, acts).
+Proof. exact lexgen_total. Qed.
+Print Assumptions C01_every_grammar_generator_total.
+
+(** ... and rejects exactly the ill-formed ones: undefined or recursive regular definitions, empty ranges,
+    patterns without alternative *)
+Theorem C01_every_grammar_generator_rejects : forall g, lexgen g (lex_fuel g) = None <-> lex_wf g = false.
+Proof. exact lexgen_None_iff. Qed.
+Print Assumptions C01_every_grammar_generator_rejects.
+
+Theorem C01_lex_wf_spec : forall g,
+  lex_wf g = match expand g with
+             | None => false
+             | Some kps => forallb (fun kp => wf_p (snd kp)) kps
+             end.
+Proof. exact lex_wf_spec. Qed.
+Print Assumptions C01_lex_wf_spec.
